@@ -519,7 +519,9 @@ func (c *Client) doRountrip(ctx context.Context, msg *kmip.RequestMessage) (*kmi
 	if c.closed.Load() {
 		return nil, net.ErrClosed
 	}
-	if c.conn == nil {
+	// Never reuse a connection that has been terminated (I/O error, reset, abandoned call):
+	// every later call would fail with the same error.
+	if c.conn == nil || c.conn.ctx.Err() != nil {
 		if err := c.reconnect(ctx); err != nil {
 			return nil, err
 		}
